@@ -11,7 +11,11 @@ EXPLANATION = (
     "which depends only on the applicable methods, their types and priorities. The mirror-symmetry premise is C12's per-kind obligations: it fails "
     "for the hook x hook kind pairs (F-mirror*), and levels are unfaithful across positions (F-lvl) - open findings shared with C12 / C02."
 )
-ASSUMPTIONS = ["hash seed / addresses influence behaviour only through set iteration order (frame obligation: no id()/hash() use in the resolution code)"]
+ASSUMPTIONS = [
+    'MultiTypeMap.mro (mode U): each handler occurs at most once in a per-entry table (register stores it under one type per entry)',
+    'MultiTypeMap.mro (mode U): signatures have vararg=False (Signature.extract rejects *args; register creates the -1 table only for vararg signatures)',
+    'MultiTypeMap.mro (mode U): the key is non-empty (__missing__ answers () before calling resolve)',
+    "hash seed / addresses influence behaviour only through set iteration order (frame obligation: no id()/hash() use in the resolution code)"]
 TRUSTED = ["graphlib model", "list.sort stability"]
 BOUNDS = {"e2e": "<=3 methods, all iteration orders of the candidate set"}
 
@@ -19,10 +23,14 @@ BOUNDS = {"e2e": "<=3 methods, all iteration orders of the candidate set"}
 def tasks(tier):
     from contracts import mro_c
 
-    t = _tm.sort_types_tasks() + _tm.typemap_tasks()[1:2]
+    t = _tm.sort_types_tasks() + _tm.typemap_tasks()[1:2] + _tm.mro_unbounded_tasks()
     # the mirror-symmetry premise of sort_types/order_free on the class / generic fragment (shared with C12)
     t += [_tm.T("typeorder/class_fragment", mro_c.t_class_fragment)]
     t += [_tm.T(f"typeorder/mirror[{a},{b}]/outside", mro_c.t_mirror(a, b, "outside")) for a, b in (("Class", "Class"), ("Class", "Alias"), ("Class", "Strict"), ("Class", "HasMethod"), ("Class", "ClassCheck"))]
+    # ... and on the value-dependent kinds (types with wildcard parameters, Literal): same obligations as C12
+    for a, b in (("Class", "Equals"), ("Class", "FuncDep"), ("Equals", "Equals"), ("Equals", "FuncDep"), ("FuncDep", "FuncDep")):
+        both = a in mro_c.TROUBLE and b in mro_c.TROUBLE
+        t += [_tm.T(f"typeorder/mirror[{a},{b}]/{'relative' if both else 'outside'}", mro_c.t_mirror(a, b, "relative" if both else "outside", unfold=1), mode="U")]
     t += _tm.e2e_tasks(["complete", "sound_chain"], tier, perm=True)
     t += [
         _tm.T("frames.determinism", __import__("pyvc.frames", fromlist=["frame_task"]).frame_task("frames.determinism", [
